@@ -1,0 +1,35 @@
+// +build verif
+
+// Hooks for the /verif correspondence harness. Compiled only with -tags verif; add-only.
+
+package vm
+
+import (
+	"bytes"
+	"math/big"
+
+	"github.com/Oneledger/protocol/data/keys"
+	ethcmn "github.com/ethereum/go-ethereum/common"
+)
+
+// VerifPeek answers "what would getStateObject(addr) give the interpreter now" without the
+// insertion into the live set that getStateObject performs: a cached object wins (a deleted one
+// reads as absent), otherwise the account keeper is asked.
+func (s *CommitStateDB) VerifPeek(addr ethcmn.Address) (balance *big.Int, nonce uint64, hasCode bool, live bool) {
+	if idx, found := s.addressToObjectIndex[addr]; found {
+		if so := s.stateObjects[idx].stateObject; so != nil {
+			if so.deleted {
+				return new(big.Int), 0, false, true
+			}
+			return new(big.Int).Set(so.Balance()), so.Nonce(), !bytes.Equal(so.CodeHash(), emptyCodeHash), true
+		}
+	}
+	acc, err := s.accountKeeper.GetAccount(keys.Address(addr.Bytes()))
+	if err != nil || acc == nil {
+		return new(big.Int), 0, false, false
+	}
+	return new(big.Int).Set(acc.Balance()), acc.Sequence, len(acc.CodeHash) != 0 && !bytes.Equal(acc.CodeHash, emptyCodeHash), false
+}
+
+// VerifLiveObjects is the size of the live object cache.
+func (s *CommitStateDB) VerifLiveObjects() int { return len(s.stateObjects) }
